@@ -21,7 +21,8 @@ RULE = ("EX = every list (order matters, repetition allowed) of <= L paths drawn
 MIN = {"quick": {"annotate==recomputed": 15000, "outputs-are-inputs": 15000, "path_length/duration": 15000},
        "thorough": {"annotate==recomputed": 400000, "outputs-are-inputs": 400000, "path_length/duration": 400000}}
 REQUIRED_CELLS = {t: ("input:real", "input:synthetic", "input:exhaustive", "tie:shortest", "tie:fastest",
-                      "tie:foremost", "times:hundreds", "times:huge", "times:numpy", "input:edited-in-place")
+                      "tie:foremost", "times:hundreds", "times:huge", "times:numpy", "times:numpy-huge", "times:beyond-int64",
+                      "input:edited-in-place")
                   for t in ("quick", "thorough")}
 
 # paths between nodes 0 and 9: (hops, first time, last time) chosen to collide on every criterion
@@ -118,10 +119,11 @@ def run(ctx, dn):
             pl = []
             # time scales: small, hundreds (durations beyond the small-int cache), nanosecond epochs beyond 2**53
             # (a few ns apart), numpy integers
-            scale = rng.choice(("small", "small", "hundreds", "huge", "numpy"))
+            scale = rng.choice(("small", "small", "hundreds", "huge", "numpy", "numpy-huge", "beyond-int64"))
             ctx.cell("times:" + scale)
-            base = {"small": 0, "hundreds": 1000, "huge": 2 ** 60, "numpy": 0}[scale]
-            step = {"small": 3, "hundreds": 400, "huge": 3, "numpy": 300}[scale]
+            base = {"small": 0, "hundreds": 1000, "huge": 2 ** 60, "numpy": 0, "numpy-huge": 2 ** 53,
+                    "beyond-int64": 2 ** 63}[scale]
+            step = {"small": 3, "hundreds": 400, "huge": 3, "numpy": 300, "numpy-huge": 2, "beyond-int64": 3}[scale]
             for _ in range(cnt):
                 if pl and rng.random() < 0.2:
                     pl.append(rng.choice(pl))
@@ -132,7 +134,7 @@ def run(ctx, dn):
                 for h in range(hops):
                     b = 9 if h == hops - 1 else rng.randint(1, 8)
                     tt = t
-                    if scale == "numpy":
+                    if scale in ("numpy", "numpy-huge"):
                         import numpy as np
                         tt = np.int64(t)
                     p.append((a, b, tt))
